@@ -113,3 +113,22 @@ service Calc {
     void ping()
     Point where(1: required Point origin)
 }
+
+// containers whose element / key / value type is a typedef of a container or
+// of binary, and a required field whose type is a typedef of a list
+typedef set<i32> IntSet
+typedef map<string, i32> Counts
+
+struct TypedefElems {
+    1: optional list<Labels> listOfLists
+    2: optional set<Blob> blobs
+    3: optional map<string, Counts> maps
+    4: required Labels reqLabels
+    5: optional list<IntSet> sets
+}
+
+// two large values in one message (see HBig)
+struct Big {
+    1: optional string a
+    2: optional binary b
+}
